@@ -66,6 +66,7 @@ def check_interleave(b, bp, ref, mi, tree, res: Result, w, rng):
     fields = {f.number: f for f in mi.fields}
     base = bp.norm(mi, cls().parse(e0))
     recs = spec.read_records(e0)
+    check_histories(b, bp, mi, tree, res, w, rng, e0)
     for mode in ("top", "top", "nested"):
         if mode == "top":
             raws, inserted = _insert_unknown(rng, wg, known, [r.raw for r in recs], rng.randint(1, 4))
@@ -135,6 +136,59 @@ def check_interleave(b, bp, ref, mi, tree, res: Result, w, rng):
                               f"{mi.full_name}: reference reads re-emitted bytes differently: {d.short()}", ww)
         except Exception as ex:
             res.violation("reference-view", [mode, "reference-rejects"], f"{mi.full_name}: reference rejects re-emitted bytes: {ex!r}", ww)
+
+
+def check_histories(b, bp, mi, tree, res: Result, w, rng, e0: bytes):
+    """unknown fields across SEVERAL decode calls and copies of one object: (1) a serialization delivered in two
+    pieces, each parsed onto the same object, keeps the unknown records of both pieces; (2) decoding more data
+    into a copy never changes what the original re-emits (and vice versa)."""
+    import copy as _copy
+
+    cls = b.bp_class(mi.full_name)
+    wg = WireGen(b, rng)
+    known = {f.number for f in mi.fields}
+    recs = [r.raw for r in spec.read_records(e0)]
+    u1 = [wg.unknown_record(known) for _ in range(rng.randint(1, 2))]
+    u2 = [wg.unknown_record(known) for _ in range(rng.randint(1, 2))]
+    cut = rng.randint(0, len(recs))
+    part1 = b"".join(recs[:cut] + u1)
+    part2 = b"".join(u2[:1] + recs[cut:] + u2[1:])
+    ww = dict(w, parts=[part1.hex(), part2.hex()], mode="two-decodes")
+    res.note("histories_two_decodes")
+    try:
+        m = cls().parse(part1)
+        m.parse(part2)
+        out = bytes(m)
+        got_unknown = [r.raw for r in spec.read_records(out) if r.number not in known]
+    except Exception as ex:
+        res.violation("interleave-raises", ["two-decodes", "raised:" + type(ex).__name__], f"{mi.full_name}: {ex!r}", ww)
+        return
+    if got_unknown != u1 + u2:
+        kind = "lost" if len(got_unknown) < len(u1 + u2) else "reordered-or-altered"
+        res.violation("unknown-not-preserved", ["two-decodes", kind, "-"],
+                      f"{mi.full_name}: unknown records of two decode calls onto one object: in={[u.hex() for u in u1 + u2]} out={[u.hex() for u in got_unknown]}", ww)
+    # (2) copies
+    for how in ("copy", "deepcopy"):
+        res.note("histories_copy_then_decode")
+        try:
+            orig = cls().parse(part1)
+            before = bytes(orig)
+            dup = _copy.copy(orig) if how == "copy" else _copy.deepcopy(orig)
+            target, other = (dup, orig) if rng.random() < 0.5 else (orig, dup)
+            target.parse(b"".join(u2))
+            after_other = bytes(other)
+            after_target_unknown = [r.raw for r in spec.read_records(bytes(target)) if r.number not in known]
+        except Exception as ex:
+            res.violation("interleave-raises", [how + "-then-decode", "raised:" + type(ex).__name__], f"{mi.full_name}: {ex!r}", ww)
+            continue
+        if after_other != before:
+            res.violation("unknown-not-preserved", [how + "-then-decode", "other-object-changed", "-"],
+                          f"{mi.full_name}: decoding more data into {'the copy' if target is dup else 'the original'} changed what the other object re-emits: "
+                          f"{before.hex()[:120]} -> {after_other.hex()[:120]}", dict(ww, mode=how + "-then-decode"))
+        if after_target_unknown != u1 + u2:
+            res.violation("unknown-not-preserved", [how + "-then-decode", "lost-or-altered", "-"],
+                          f"{mi.full_name}: unknown records after {how} + further decode: in={[u.hex() for u in u1 + u2]} out={[u.hex() for u in after_target_unknown]}",
+                          dict(ww, mode=how + "-then-decode"))
 
 
 # ---------------------------------------------------------------------------
